@@ -30,6 +30,48 @@ pub mod runtime {
             //@KCUT_X1 crates/lib/mimium-lang/src/runtime/wasm.rs :: fn state_delay_host
             //@KCUT_X1 crates/lib/mimium-lang/src/runtime/wasm.rs :: fn state_mem_host
 
+            /// The VM's state instruction arms (`Machine::execute`), each cut verbatim by rule X4 and re-headed as a
+            /// method of a REDUCED `Machine` (only the fields the arms touch; `get_current_state` reduced to the
+            /// global storage, i.e. no closure state is active; `get_fnproto(func_i).delay_sizes` reduced to a field).
+            /// The stack accessors are cut verbatim.
+            pub mod vm_arms {
+                use super::super::*;
+                use std::cmp::Ordering;
+                use std::ops::Range;
+                pub type Reg = u16;
+                pub type TypeSize = u16;
+                pub struct FuncProto { pub delay_sizes: Vec<u64> }
+                pub struct Machine {
+                    pub stack: Vec<RawVal>,
+                    pub base_pointer: u64,
+                    pub global_states: StateStorage,
+                    pub delaysizes_pos_stack: Vec<usize>,
+                    pub fnproto: FuncProto,
+                }
+                //@KCUT crates/lib/mimium-lang/src/runtime/vm.rs :: fn set_vec_range
+                impl Machine {
+                    // REDUCTION (hand-written): the active state storage is the global one
+                    fn get_current_state(&mut self) -> &mut StateStorage { &mut self.global_states }
+                    // REDUCTION (hand-written): one function prototype
+                    fn get_fnproto(&self, _func_i: usize) -> &FuncProto { &self.fnproto }
+                    //@KCUT crates/lib/mimium-lang/src/runtime/vm.rs :: method Machine::get_stack
+                    //@KCUT crates/lib/mimium-lang/src/runtime/vm.rs :: method Machine::get_stack_range
+                    //@KCUT crates/lib/mimium-lang/src/runtime/vm.rs :: method Machine::set_stack
+                    //@KCUT crates/lib/mimium-lang/src/runtime/vm.rs :: method Machine::set_stack_range
+                    //@KCUT crates/lib/mimium-lang/src/runtime/vm.rs :: method Machine::to_value
+                    //@KCUT_ARM crates/lib/mimium-lang/src/runtime/vm.rs :: arm Instruction::GetState as arm_get_state(&mut self, dst: Reg, size: TypeSize) in method Machine::execute
+                    //@KCUT_ARM crates/lib/mimium-lang/src/runtime/vm.rs :: arm Instruction::SetState as arm_set_state(&mut self, src: Reg, size: TypeSize) in method Machine::execute
+                    //@KCUT_ARM crates/lib/mimium-lang/src/runtime/vm.rs :: arm Instruction::PushStatePos as arm_push_state_pos(&mut self, v: StateOffset) in method Machine::execute
+                    //@KCUT_ARM crates/lib/mimium-lang/src/runtime/vm.rs :: arm Instruction::PopStatePos as arm_pop_state_pos(&mut self, v: StateOffset) in method Machine::execute
+                    //@KCUT_ARM crates/lib/mimium-lang/src/runtime/vm.rs :: arm Instruction::Delay as arm_delay(&mut self, dst: Reg, src: Reg, time: Reg, func_i: usize) in method Machine::execute
+                    //@KCUT_ARM crates/lib/mimium-lang/src/runtime/vm.rs :: arm Instruction::Mem as arm_mem(&mut self, dst: Reg, src: Reg) in method Machine::execute
+                }
+                #[cfg(kani)]
+                mod proofs_arms {
+                    include!("proofs_c05_arms.rs");
+                }
+            }
+
             #[cfg(kani)]
             mod proofs_c05 {
                 include!("proofs_c05.rs");
